@@ -114,7 +114,10 @@ structure AllSound (n : Nat) : Prop where
     GoodX Gg (PZ ts) S Gs (evalList ops ext prog n es st)
   numOr : ∀ (oe : Option (Expr F)) (d : F) st Gs S, (∀ x, oe = some x → Typed Φ (lookupG Gs Gg) x .num) → StOk S Gs Gg st →
     GoodX Gg (fun _ _ => True) S Gs (evalNumOr ops ext prog n oe d st)
-  call : ∀ (name : Str) (args : List (Expr F)) (sig : FSig) st Gs S, Φ name = some sig → args.length = sig.params.length →
+  callV : ∀ (name : Str) (args : List (Expr F)) (sig : FSig) (tv : Ty) st Gs S, Φ name = some sig → sig.variadic = some tv →
+    (∀ a ∈ args, Typed Φ (lookupG Gs Gg) a tv) → StOk S Gs Gg st →
+    GoodX Gg (PR sig.ret) S Gs (evalCall ops ext prog n name args st)
+  call : ∀ (name : Str) (args : List (Expr F)) (sig : FSig) st Gs S, Φ name = some sig → sig.variadic = none → args.length = sig.params.length →
     (∀ (i : Nat) a pt, args[i]? = some a → sig.params[i]? = some pt → Typed Φ (lookupG Gs Gg) a pt) → StOk S Gs Gg st →
     GoodX Gg (PR sig.ret) S Gs (evalCall ops ext prog n name args st)
   builtin : ∀ (name : Str) (args : List (Expr F)) (sig : BSig) (tys : List Ty) st Gs S, builtinSig name = some sig →
@@ -421,9 +424,12 @@ theorem all_sound (hx : ExtOk ext) (hg : GgOk Gg) (hp : ProgOk Φ Gg prog) (n : 
         | builtin name args sig tys _ hsig hret hle hfix hlen hargs hpred =>
           simp only
           exact (ih.builtin name args sig tys st Gs S hsig hle hfix hlen hargs hpred hok).imp Gg (fun S' v h => h t hret)
-        | call name args sig _ hphi hret hlen hargs =>
+        | callV name args sig tv _ hphi hv hret hargs =>
           simp only
-          exact (ih.call name args sig st Gs S hphi hlen hargs hok).imp Gg (fun S' v h => h t hret)
+          exact (ih.callV name args sig tv st Gs S hphi hv hargs hok).imp Gg (fun S' v h => h t hret)
+        | call name args sig _ hphi hvn hret hlen hargs =>
+          simp only
+          exact (ih.call name args sig st Gs S hphi hvn hlen hargs hok).imp Gg (fun S' v h => h t hret)
     · -- evalL
       intro es st Gs S s hes hok
       cases es with
@@ -562,8 +568,60 @@ theorem all_sound (hx : ExtOk ext) (hg : GgOk Gg) (hp : ProgOk Φ Gg prog) (n : 
       cases oe with
       | none => exact key _ (.num d)
       | some e => exact key e (hoe e rfl)
+    · -- a call of a variadic user-defined function
+      intro name args sig tv st Gs S hphi hv hargs hok
+      unfold evalCall
+      have h1 := ih.evalL args st Gs S tv hargs hok
+      cases hq : evalList ops ext prog n args st with
+      | err o s1 => rw [hq] at h1; exact h1
+      | ok vs s1 =>
+        rw [hq] at h1
+        obtain ⟨S1, g1, hok1, hvs⟩ := h1
+        obtain ⟨hnb, fd, hfd⟩ := hp.defined name sig hphi
+        obtain ⟨⟨vn, hvar, hvne, hbody⟩, hpar, hreg, hret⟩ := hp.typedV name sig fd tv hphi hfd hv
+        simp only [callBuiltin_none ops ext name vs s1 hnb, hfd]
+        have hnl : ¬ vs.length < fd.params.length := by simp [hpar]
+        simp only [hnl, if_false]
+        -- the state in which the body starts: the array of all arguments bound to the variadic parameter
+        obtain ⟨hk2, vt2⟩ := hok1.heap.push_arr tv hreg vs hvs
+        have g2 := Grows.snoc S1 (Ty.arr tv)
+        have hcs : calleeState fd vs s1 =
+            { s1 with locals := [[(vn, Val.arr s1.heap.size)]], heap := s1.heap.push (.arr vs) } := by
+          simp [calleeState, hvar, hpar, bindParams, alloc, setVar, hvne, scopeSet]
+        have hokc : StOk (S1 ++ [Ty.arr tv]) [[(vn, Ty.arr tv)]] Gg (calleeState fd vs s1) := by
+          rw [hcs]
+          exact ⟨.cons (.cons ⟨rfl, vt2⟩ .nil) .nil, hok1.global.mono g2, hk2⟩
+        have h2 := ih.execN sig.ret fd.body (calleeState fd vs s1) [[(vn, Ty.arr tv)]] (S1 ++ [Ty.arr tv]) hbody hokc
+        cases hq2 : execBlockNode ops ext prog n fd.body (calleeState fd vs s1) with
+        | err o s4 => rw [hq2] at h2; exact h2
+        | ok c s4 =>
+          rw [hq2] at h2
+          obtain ⟨S4, Gx, g4, hok4, _, _, hc4⟩ := h2
+          have hback : StOk S4 Gs Gg { s4 with locals := s1.locals } :=
+            ⟨hok1.locals.mono (g2.trans g4), hok4.global, hok4.heap⟩
+          cases c with
+          | ret rv =>
+            cases rv with
+            | some v =>
+              obtain ⟨t', ht', hv'⟩ := hc4
+              exact ⟨S4, g1.trans (g2.trans g4), hback, fun t ht => by rw [ht'] at ht; cases ht; exact hv'⟩
+            | none =>
+              refine ⟨S4, g1.trans (g2.trans g4), hback, fun t ht => ?_⟩
+              obtain ⟨hbt, hfn⟩ := hret t ht
+              obtain ⟨v, hv⟩ := C05.typed_function_returns_a_value ops ext prog n fd.body _ s4 _ hbt hfn hq2
+              cases hv
+          | normal =>
+            refine ⟨S4, g1.trans (g2.trans g4), hback, fun t ht => ?_⟩
+            obtain ⟨hbt, hfn⟩ := hret t ht
+            obtain ⟨v, hv⟩ := C05.typed_function_returns_a_value ops ext prog n fd.body _ s4 _ hbt hfn hq2
+            cases hv
+          | brk =>
+            refine ⟨S4, g1.trans (g2.trans g4), hback, fun t ht => ?_⟩
+            obtain ⟨hbt, hfn⟩ := hret t ht
+            obtain ⟨v, hv⟩ := C05.typed_function_returns_a_value ops ext prog n fd.body _ s4 _ hbt hfn hq2
+            cases hv
     · -- a call of a user-defined function
-      intro name args sig st Gs S hphi hlen hargs hok
+      intro name args sig st Gs S hphi hvn hlen hargs hok
       unfold evalCall
       have h1 := ih.evalZ args sig.params st Gs S hlen hargs hok
       cases hq : evalList ops ext prog n args st with
@@ -572,7 +630,7 @@ theorem all_sound (hx : ExtOk ext) (hg : GgOk Gg) (hp : ProgOk Φ Gg prog) (n : 
         rw [hq] at h1
         obtain ⟨S1, g1, hok1, hvl, hvs⟩ := h1
         obtain ⟨hnb, fd, hfd⟩ := hp.defined name sig hphi
-        obtain ⟨hvar, hpl, hbody, hret⟩ := hp.typed name sig fd hphi hfd
+        obtain ⟨hvar, hpl, hbody, hret⟩ := hp.typed name sig fd hphi hfd hvn
         simp only [callBuiltin_none ops ext name vs s1 hnb, hfd]
         have hnl : ¬ vs.length < fd.params.length := by omega
         simp only [hnl, if_false]
@@ -936,9 +994,18 @@ theorem all_sound (hx : ExtOk ext) (hg : GgOk Gg) (hp : ProgOk Φ Gg prog) (n : 
             rw [hq] at h1
             obtain ⟨S1, g1, hok1, _⟩ := h1
             exact ⟨S1, Gs, g1, hok1, rfl, rfl, fun _ => rfl, trivial⟩
-        | callFn _ name args sig hphi hlen hargs =>
+        | callFnV _ name args sig tv hphi hv hargs =>
           simp only
-          have h1 := ih.call name args sig st Gs S hphi hlen hargs hok
+          have h1 := ih.callV name args sig tv st Gs S hphi hv hargs hok
+          cases hq : evalCall ops ext prog n name args st with
+          | err o s1 => rw [hq] at h1; exact h1
+          | ok v s1 =>
+            rw [hq] at h1
+            obtain ⟨S1, g1, hok1, _⟩ := h1
+            exact ⟨S1, Gs, g1, hok1, rfl, rfl, fun _ => rfl, trivial⟩
+        | callFn _ name args sig hphi hvn hlen hargs =>
+          simp only
+          have h1 := ih.call name args sig st Gs S hphi hvn hlen hargs hok
           cases hq : evalCall ops ext prog n name args st with
           | err o s1 => rw [hq] at h1; exact h1
           | ok v s1 =>
@@ -1139,13 +1206,13 @@ theorem stmt_sound (hx : ExtOk ext) (hg : GgOk Gg) (hp : ProgOk Φ Gg prog) (fue
 returns, if the function has a result type, a value of that type (it cannot fall off the end of the
 body), leaves the caller's scopes as they were and the globals and heap well-typed -/
 theorem call_sound (hx : ExtOk ext) (hg : GgOk Gg) (hp : ProgOk Φ Gg prog) (fuel : Nat) (name : Str) (args : List (Expr F)) (sig : FSig)
-    (st : St F) (Gs : List SEnv) (S : Store) (hphi : Φ name = some sig) (hlen : args.length = sig.params.length)
+    (st : St F) (Gs : List SEnv) (S : Store) (hphi : Φ name = some sig) (hvn : sig.variadic = none) (hlen : args.length = sig.params.length)
     (hargs : ∀ (i : Nat) a pt, args[i]? = some a → sig.params[i]? = some pt → Typed Φ (lookupG Gs Gg) a pt)
     (hok : StOk S Gs Gg st) :
     match evalCall ops ext prog fuel name args st with
     | .ok v st' => ∃ S', Grows S S' ∧ StOk S' Gs Gg st' ∧ ∀ t, sig.ret = some t → VT S' v t
     | .err o _ => Doc o := by
-  have h := (all_sound ops ext prog Φ Gg hx hg hp fuel).call name args sig st Gs S hphi hlen hargs hok
+  have h := (all_sound ops ext prog Φ Gg hx hg hp fuel).call name args sig st Gs S hphi hvn hlen hargs hok
   cases hq : evalCall ops ext prog fuel name args st with
   | err o s => rw [hq] at h; exact h
   | ok v s => rw [hq] at h; exact h
